@@ -19,7 +19,7 @@ META = {
 NEST_QUICK = '{"10","1000"}'
 NEST_THOROUGH = '{"10","1000","100000"}'
 
-TLC_FIELDS = ("k", "p", "sw", "sc", "cut", "n", "len", "eps", "g")
+TLC_FIELDS = ("k", "p", "sw", "sc", "cut", "n", "len", "g")
 
 
 def _kinds_of(ctx):
@@ -111,11 +111,21 @@ def judge(ctx, recs, nest, chunks=1, label="judge"):
     size = (len(recs) + chunks - 1) // chunks
     parts = [(c, recs[c * size:(c + 1) * size]) for c in range(chunks) if recs[c * size:(c + 1) * size]]
 
+    # the order the group members index into: the model export's entry points, sorted (the harness
+    # sorts them the same way when it loads the model)
+    model = json.load(open(ctx.specfile("inputs_model.json")))
+    with open(ctx.specfile("inputs_eps.json"), "w") as f:
+        json.dump({k["k"]: sorted(k["eps"]) for k in model["kinds"]}, f)
+    order = {k["k"]: sorted(k["eps"]) for k in model["kinds"]}
+    for r in recs:
+        if r["eps"] != order.get(r["k"]):
+            raise Machinery("harness and model disagree on the entry points of kind %s" % r["k"])
+
     def one(part):
         c, rs = part
         fname = "inputs_obs_%s_%d.ndjson" % (label, c)
         write_ndjson(ctx.specfile(fname), [{k: r[k] for k in TLC_FIELDS} for r in rs])
-        r = ctx.tlc("Trace_Inputs", "Inputs_trace.cfg", subst={"NEST": nest, "OBSFILE": '"%s"' % fname}, workers=1,
+        r = ctx.tlc("Trace_Inputs", "Inputs_trace.cfg", subst={"NEST": nest, "OBSFILE": '"%s"' % fname, "EPSFILE": '"inputs_eps.json"'}, workers=1,
                     timeout=3000, label="Trace_Inputs %s[%d records]" % (label, len(rs)), count=False)
         m = re.search(r'<<"JUDGED", (\d+)>>', r.out)
         if not m or int(m.group(1)) != len(rs):
